@@ -43,7 +43,7 @@ func VH_c03_writegate() {
 			}
 		}
 	}
-	bm.bindingNum = counter
+	vhSetBindingNum(bm, counter)
 	for _, q := range pairs {
 		if q.has {
 			bm.bindingEntries = append(bm.bindingEntries, &api.BindingEntry{Id: q.id, ServerFeature: q.server, ClientFeature: q.client})
